@@ -108,4 +108,164 @@ theorem readFull_flat (s : Src) (k : Nat) :
   simp only [List.length_nil, Nat.zero_add, Nat.sub_zero, List.nil_append] at h
   exact h
 
+/-! ### io.LimitReader -/
+
+/-- what the limited reader reports when it has nothing (more) to give -/
+def limErr (l : Lim) : ErrClass := if l.n ≤ l.src.flat.length then .eof else l.src.fin.err
+
+theorem limLoop_flat : ∀ (fuel : Nat) (l : Lim) (k : Nat) (acc : Bytes), l.src.chunks.length + 3 ≤ fuel →
+    (k ≤ acc.length + min l.n l.src.flat.length →
+      ∃ l', limReadFullLoop fuel l k acc = .ok (acc ++ l.src.flat.take (k - acc.length), l') ∧
+        l'.src.flat = l.src.flat.drop (k - acc.length) ∧ l'.n = l.n - (k - acc.length) ∧ l'.src.fin = l.src.fin) ∧
+    (¬ k ≤ acc.length + min l.n l.src.flat.length →
+      limReadFullLoop fuel l k acc = .err (if acc.length + min l.n l.src.flat.length = 0 then limErr l else .other))
+  | 0, l, k, acc, h => by omega
+  | fuel + 1, ⟨⟨chunks, fin, eager⟩, n⟩, k, acc, h => by
+    rw [limReadFullLoop]
+    by_cases hk : k ≤ acc.length
+    · rw [if_pos hk]
+      have : k - acc.length = 0 := by omega
+      constructor
+      · intro _
+        exact ⟨_, by rw [this]; simp, by rw [this]; simp, by rw [this]; simp, rfl⟩
+      · intro h2; omega
+    · rw [if_neg hk]
+      by_cases hn : n = 0
+      · -- the limit is used up: EOF
+        subst hn
+        simp only [Lim.read, if_true, List.append_nil, Nat.zero_min]
+        constructor
+        · intro h2; omega
+        · intro _
+          rw [if_neg hk]
+          simp [limErr]
+      · simp only [Lim.read, if_neg hn]
+        cases chunks with
+        | nil =>
+          simp only [Src.read, Src.flat, List.flatten_nil, List.length_nil, List.append_nil, Nat.min_zero, Nat.add_zero]
+          constructor
+          · intro h2; omega
+          · intro _
+            rw [if_neg hk]
+            have : ¬ n ≤ 0 := by omega
+            simp [limErr, Src.flat, this]
+        | cons c cs =>
+          have hfl : (Src.mk (c :: cs) fin eager).flat = c ++ (Src.mk cs fin eager).flat := flat_cons c cs fin eager
+          simp only [Src.read]
+          by_cases hc : c.length ≤ min (k - acc.length) n
+          · rw [if_pos hc]
+            by_cases he : (cs.isEmpty && eager) = true
+            · rw [if_pos he]
+              simp only [Bool.and_eq_true, List.isEmpty_iff] at he
+              obtain ⟨hcs, _⟩ := he
+              subst hcs
+              simp only [Src.flat, List.flatten_cons, List.flatten_nil, List.append_nil, List.length_append]
+              constructor
+              · intro h2
+                have hkk : k - acc.length = c.length := by omega
+                rw [if_pos (by omega)]
+                refine ⟨⟨⟨[], fin, eager⟩, n - c.length⟩, ?_, ?_, ?_, rfl⟩
+                · rw [hkk, List.take_length]
+                · simp [hkk, Src.flat]
+                · rw [hkk]
+              · intro h2
+                rw [if_neg (by omega)]
+                have hmin : min n c.length = c.length := by omega
+                rw [hmin]
+                by_cases hz : acc.length + c.length = 0
+                · rw [if_pos hz, if_pos hz]
+                  have : ¬ n ≤ c.length := by omega
+                  simp [limErr, Src.flat, this]
+                · rw [if_neg hz, if_neg hz]
+            · rw [if_neg he]
+              simp only
+              have hck : c.length ≤ k - acc.length := by omega
+              have hcn : c.length ≤ n := by omega
+              have hmin : acc.length + c.length + min (n - c.length) (Src.mk cs fin eager).flat.length =
+                  acc.length + min n (c.length + (Src.mk cs fin eager).flat.length) := by omega
+              have hfuel : (Lim.mk ⟨cs, fin, eager⟩ (n - c.length)).src.chunks.length + 3 ≤ fuel := by
+                simp only [List.length_cons] at h ⊢; omega
+              have hle : (n - c.length ≤ (Src.mk cs fin eager).flat.length) ↔ (n ≤ c.length + (Src.mk cs fin eager).flat.length) := by omega
+              have ih := limLoop_flat fuel ⟨⟨cs, fin, eager⟩, n - c.length⟩ k (acc ++ c) hfuel
+              rw [hfl]
+              simp only [List.length_append] at ih ⊢
+              constructor
+              · intro h2
+                have hA : k ≤ acc.length + c.length + min (n - c.length) (Src.mk cs fin eager).flat.length := by
+                  rw [hmin]; exact h2
+                obtain ⟨l', h1, h3, h4, h5⟩ := ih.1 hA
+                refine ⟨l', ?_, ?_, ?_, h5⟩
+                · rw [h1, List.append_assoc]
+                  congr 1
+                  rw [List.take_append]
+                  have : k - acc.length - c.length = k - (acc.length + c.length) := by omega
+                  rw [List.take_of_length_le hck, this]
+                · rw [h3, List.drop_append]
+                  have : k - acc.length - c.length = k - (acc.length + c.length) := by omega
+                  rw [List.drop_of_length_le hck, this]; simp
+                · rw [h4]; clear ih h1 h3; omega
+              · intro h2
+                have hB : ¬ k ≤ acc.length + c.length + min (n - c.length) (Src.mk cs fin eager).flat.length := by
+                  rw [hmin]; exact h2
+                rw [ih.2 hB]
+                have hl : limErr ⟨⟨cs, fin, eager⟩, n - c.length⟩ = limErr ⟨⟨c :: cs, fin, eager⟩, n⟩ := by
+                  simp only [limErr, hfl, List.length_append]
+                  by_cases hx : n ≤ c.length + (Src.mk cs fin eager).flat.length
+                  · rw [if_pos hx, if_pos (hle.mpr hx)]
+                  · rw [if_neg hx, if_neg (fun h => hx (hle.mp h))]
+                rw [hl, hmin]
+          · rw [if_neg hc]
+            simp only
+            -- only part of the head chunk is handed out: either the buffer is full now, or the limit is used up
+            have hm : min (k - acc.length) n < c.length := by omega
+            have hlen : (acc ++ c.take (min (k - acc.length) n)).length = acc.length + min (k - acc.length) n := by
+              simp [List.length_take]; omega
+            rw [hfl]
+            cases fuel with
+            | zero => simp at h
+            | succ fuel =>
+              rw [limReadFullLoop]
+              by_cases hfull : k - acc.length ≤ n
+              · -- the request is satisfied
+                have hmin : min (k - acc.length) n = k - acc.length := by omega
+                rw [if_pos (by rw [hlen]; omega)]
+                constructor
+                · intro _
+                  refine ⟨⟨⟨c.drop (min (k - acc.length) n) :: cs, fin, eager⟩, n - (List.take (min (k - acc.length) n) c).length⟩, ?_, ?_, ?_, rfl⟩
+                  · congr 1
+                    rw [hmin, List.take_append_of_le_length (by omega)]
+                  · simp only [Src.flat, List.flatten_cons]
+                    rw [hmin, List.drop_append_of_le_length (by omega)]
+                  · simp only [List.length_take]; omega
+                · intro h2
+                  simp only [List.length_append] at h2
+                  omega
+              · -- the limit cut the read short: the next Read reports EOF
+                have hmin : min (k - acc.length) n = n := by omega
+                rw [if_neg (by rw [hlen]; omega)]
+                have hn0 : n - (List.take (min (k - acc.length) n) c).length = 0 := by
+                  simp only [List.length_take]; omega
+                simp only [Lim.read]
+                rw [if_pos hn0]
+                simp only [List.append_nil]
+                rw [if_neg (by rw [hlen]; omega)]
+                constructor
+                · intro h2
+                  simp only [List.length_append] at h2
+                  omega
+                · intro _
+                  rw [hlen]
+                  simp only [List.length_append]
+                  rw [if_neg (by omega), if_neg (by omega)]
+
+/-- `io.ReadFull` through `io.LimitReader(src, n)`, for any chunking: exactly the flat reader on the first `n` bytes, which
+    reports EOF at the limit and the source's own error if the source ends before it -/
+theorem Lim.readFull_flat (l : Lim) (k : Nat) :
+    (k ≤ min l.n l.src.flat.length → ∃ l', l.readFull k = .ok (l.src.flat.take k, l') ∧ l'.src.flat = l.src.flat.drop k ∧
+        l'.n = l.n - k ∧ l'.src.fin = l.src.fin) ∧
+    (¬ k ≤ min l.n l.src.flat.length → l.readFull k = .err (if min l.n l.src.flat.length = 0 then limErr l else .other)) := by
+  have h := limLoop_flat (l.src.chunks.length + 3) l k [] (Nat.le_refl _)
+  simp only [List.length_nil, Nat.zero_add, Nat.sub_zero, List.nil_append] at h
+  exact h
+
 end Kmip.Io
